@@ -18,15 +18,15 @@ Ownership
                                 releases the box: no call into `R`, no drop, no output.
 * `C17_ownership_statement` / `C17_iter_counterexample` / `C17_iter_headerPlus`
                                 the full safety statement under the header's preconditions is FALSE for the
-                                model (= the code): attribute iterator + `set_attribute` (finding F10).
+                                model (= the code): attribute iterator + `set_attribute` (finding F20).
 Wrapper
 * `C17_wrapper_unit`            the Rust unit evolves only through `R.unitOp` applied to the decoded arguments
                                 (`mirrorOp`); an argument that is not UTF-8 never reaches `R`.
 * `C17_failure_sets_last_error` every failure value of a top-level entry point comes with `LAST_ERROR` of the
                                 calling thread set.
-* `C17_unit_failure_sets_last_error_partial` / `C17_streaming_failure_silent`
-                                same inside handlers, EXCEPT the three rejection paths of `streaming_*`
-                                (finding F11): proved counter-example.
+* `C17_unit_failure_sets_last_error` / `C17_streaming_failure_reported`
+                                same for every entry point called inside handlers, including (since /repo
+                                9f8617f, finding F21 fixed) the three rejection paths of `streaming_*`.
 * `C17_utf8_never_reaches_R`    an argument that is not valid UTF-8 is answered with the failure value and the
                                 `Utf8Error` in `LAST_ERROR`; the unit is untouched.
 (sink bytes are handed through unchanged by construction of `applyEvents`; their equality with the Rust run is
@@ -556,13 +556,185 @@ theorem C17_failure_sets_last_error (pol : Policy) (prog : Prog) (e e' : Env R) 
     unfold takeLastError at hf
     split at hf <;> simp [Env.out, Env.setVar, alloc] at hf
 
-/-- Finding F11: the rejection paths of `lol_html_*_streaming_*` return -1 and leave `LAST_ERROR`
-    exactly as it was (lib.rs:236-243), although the header promises "an error will be reported". -/
-theorem C17_streaming_failure_silent (pol : Policy) (t : Tid) (s : HState R) (f : Nat)
+theorem releaseHandler_lastErr {e e' : Env R} {sid : Nat} (h : releaseHandler e sid = .ok e') :
+    e'.lastErr = e.lastErr := by
+  unfold releaseHandler at h
+  split at h
+  · split at h
+    · simp at h
+    · rename_i hasDrop _ _
+      simp only [Res.ok.injEq] at h; subst h
+      cases hasDrop <;> simp [Env.setObj]
+  · simp at h
+
+/-- (F21, fixed in /repo 9f8617f) The rejection paths of `lol_html_*_streaming_*` — NULL handler,
+    `reserved != NULL`, missing `write_all_callback` — return -1 AND record
+    `CStreamingHandlerError::Uninitialized` for the calling thread (lib.rs:236-249). -/
+theorem C17_streaming_failure_reported (pol : Policy) (t : Tid) (s : HState R) (f : Nat)
     (w d : Bool) (script : Nat) :
-    cUnitOp pol t s (.streaming f .null) = .ok { s with env := s.env.out (.code (-1)) } ∧
-    cUnitOp pol t s (.streaming f (.mk false w d script)) = .ok { s with env := s.env.out (.code (-1)) } := by
-  simp [cUnitOp, pure]
+    cUnitOp pol t s (.streaming f .null) =
+      .ok { s with env := (saveLastError s.env t .uninitialized).out (.code (-1)) } ∧
+    cUnitOp pol t s (.streaming f (.mk false w d script)) =
+      .ok { s with env := (saveLastError s.env t .uninitialized).out (.code (-1)) } ∧
+    (∀ s', cUnitOp pol t s (.streaming f (.mk true false d script)) = .ok s' →
+      s'.env.log.head? = some (.code (-1)) ∧ s'.env.lastErr t = some .uninitialized) := by
+  refine ⟨by simp [cUnitOp, pure], by simp [cUnitOp, pure], ?_⟩
+  intro s' h
+  simp only [cUnitOp, Bool.not_true, Bool.false_eq_true, if_false, Bool.not_false, if_true,
+    Res.bind_ok, Res.pure_ok] at h
+  obtain ⟨env, hr, rfl⟩ := h
+  refine ⟨by simp [Env.out], ?_⟩
+  simp [Env.out, releaseHandler_lastErr hr, saveLastError, alloc]
+
+/-- Inside call-backs too: every entry point on a rewritable unit that answers `-1` has set `LAST_ERROR`
+    of the calling thread — invalid UTF-8, an `Err` of the Rust method, "No end tag.", and (since 9f8617f)
+    the streaming-handler rejections. Together with `C17_failure_sets_last_error` this covers every
+    `-1`/`NULL` failure of every entry point; the one documented exception, a NULL *target* pointer
+    (lib.rs:254, a header precondition), is outside the model (units are always valid). -/
+theorem C17_unit_failure_sets_last_error (pol : Policy) (t : Tid) (s s' : HState R) (op : COp)
+    (h : cUnitOp pol t s op = .ok s') (hf : s'.env.log.head? = some (.code (-1))) :
+    (s'.env.lastErr t).isSome = true := by
+  cases op with
+  | strGet dst f =>
+    simp only [cUnitOp, Res.bind_ok] at h
+    obtain ⟨⟨s1, r⟩, hc, h⟩ := h
+    split at h
+    · simp only [Res.pure_ok] at h; subst h; simp [allocStr, alloc, Env.out, Env.setVar] at hf
+    · simp at h
+  | optStrGet dst f args =>
+    simp only [cUnitOp] at h
+    split at h
+    · simp only [Res.pure_ok] at h; subst h; simp [nullStr, Env.out, Env.setVar] at hf
+    · simp only [Res.bind_ok] at h
+      obtain ⟨⟨s1, r⟩, hc, h⟩ := h
+      split at h
+      · simp only [Res.pure_ok] at h; subst h; simp [allocStr, alloc, Env.out, Env.setVar] at hf
+      · simp only [Res.pure_ok] at h; subst h; simp [nullStr, Env.out, Env.setVar] at hf
+      · simp at h
+  | intGet f args =>
+    simp only [cUnitOp] at h
+    split at h
+    · simp only [Res.pure_ok] at h; subst h; simp [Env.out, saveLastError]
+    · simp only [Res.bind_ok] at h
+      obtain ⟨⟨s1, r⟩, hc, h⟩ := h
+      split at h
+      · rename_i b _
+        simp only [Res.pure_ok] at h; subst h
+        cases b <;> simp [Env.out] at hf
+      · simp at h
+  | fallible f args =>
+    simp only [cUnitOp] at h
+    split at h
+    · simp only [Res.pure_ok] at h; subst h; simp [Env.out, saveLastError]
+    · simp only [Res.bind_ok] at h
+      obtain ⟨⟨s1, r⟩, hc, h⟩ := h
+      split at h
+      · simp only [Res.pure_ok] at h; subst h; simp [Env.out] at hf
+      · simp only [Res.pure_ok] at h; subst h; simp [Env.out, saveLastError]
+      · simp at h
+  | infallible f args isHtml =>
+    simp only [cUnitOp] at h
+    split at h
+    · simp only [Res.pure_ok] at h; subst h; simp [Env.out, saveLastError]
+    · simp only [Res.bind_ok, Res.pure_ok] at h
+      obtain ⟨⟨s1, r⟩, hc, rfl⟩ := h
+      simp [Env.out] at hf
+  | void f =>
+    simp only [cUnitOp, Res.bind_ok, Res.pure_ok] at h
+    obtain ⟨⟨s1, r⟩, hc, rfl⟩ := h
+    simp [Env.out] at hf
+  | boolGet f =>
+    simp only [cUnitOp, Res.bind_ok] at h
+    obtain ⟨⟨s1, r⟩, hc, h⟩ := h
+    split at h
+    · simp only [Res.pure_ok] at h; subst h; simp [Env.out] at hf
+    · simp at h
+  | rawGet f =>
+    simp only [cUnitOp, Res.bind_ok, Res.pure_ok] at h
+    obtain ⟨⟨s1, r⟩, hc, rfl⟩ := h
+    simp [Env.out] at hf
+  | bytesFallible f b isHtml =>
+    simp only [cUnitOp, Res.bind_ok] at h
+    obtain ⟨⟨s1, r⟩, hc, h⟩ := h
+    split at h
+    · simp only [Res.pure_ok] at h; subst h; simp [Env.out] at hf
+    · simp only [Res.pure_ok] at h; subst h; simp [Env.out, saveLastError]
+    · simp at h
+  | addEndTagHandler hid =>
+    simp only [cUnitOp, Res.bind_ok] at h
+    obtain ⟨⟨s1, r⟩, hc, h⟩ := h
+    split at h
+    · simp only [Res.pure_ok] at h; subst h; simp [Env.out] at hf
+    · simp only [Res.pure_ok] at h; subst h; simp [Env.out, saveLastError]
+    · simp at h
+  | clearEndTagHandlers =>
+    simp only [cUnitOp, Res.bind_ok, Res.pure_ok] at h
+    obtain ⟨⟨s1, r⟩, hc, rfl⟩ := h
+    simp [Env.out] at hf
+  | streaming f a =>
+    simp only [cUnitOp] at h
+    split at h
+    · simp only [Res.pure_ok] at h; subst h; simp [Env.out, saveLastError]
+    · split at h
+      · simp only [Res.pure_ok] at h; subst h; simp [Env.out, saveLastError]
+      · split at h
+        · simp only [Res.bind_ok, Res.pure_ok] at h
+          obtain ⟨env, hr, rfl⟩ := h
+          have := releaseHandler_lastErr hr
+          simp [Env.out, this, saveLastError, alloc]
+        · simp only [Res.bind_ok, Res.pure_ok] at h
+          obtain ⟨⟨s1, r⟩, hc, rfl⟩ := h
+          simp [Env.out] at hf
+  | iterGet dst =>
+    simp only [cUnitOp, Res.bind_ok] at h
+    obtain ⟨⟨s1, r⟩, hc, h⟩ := h
+    split at h
+    · simp only [Res.pure_ok] at h; subst h; simp [Env.out, Env.setVar, alloc] at hf
+    · simp at h
+  | iterNext it =>
+    simp only [cUnitOp, Res.bind_ok, require_ok] at h
+    obtain ⟨_, _, ⟨h0, o⟩, hd, h⟩ := h
+    split at h
+    · simp only [Res.bind_ok, require_ok] at h
+      obtain ⟨_, _, h⟩ := h
+      split at h
+      · simp at h
+      · split at h
+        · simp only [Res.pure_ok] at h; subst h; simp [Env.out, Env.setObj] at hf
+        · simp only [Res.pure_ok] at h; subst h; simp [Env.out] at hf
+    · simp at h
+  | iterFree it =>
+    simp only [cUnitOp, Res.bind_ok, require_ok, Res.pure_ok] at h
+    obtain ⟨_, _, ⟨env, h1, o1⟩, hrel, rfl⟩ := h
+    simp [Env.out] at hf
+  | attrStrGet dst it f =>
+    simp only [cUnitOp, Res.bind_ok, require_ok] at h
+    obtain ⟨_, _, ⟨h0, o⟩, hd, h⟩ := h
+    split at h
+    · simp only [Res.bind_ok, require_ok] at h
+      obtain ⟨_, _, _, _, h⟩ := h
+      split at h
+      · simp at h
+      · simp only [Res.bind_ok] at h
+        obtain ⟨⟨s1, r⟩, hc, h⟩ := h
+        split at h
+        · simp only [Res.pure_ok] at h; subst h; simp [allocStr, alloc, Env.out, Env.setVar] at hf
+        · simp at h
+    · simp at h
+  | strFree v =>
+    simp only [cUnitOp, Res.bind_ok, Res.pure_ok] at h
+    obtain ⟨env, hfree, rfl⟩ := h
+    unfold strFree at hfree
+    split at hfree
+    · simp at hfree; subst hfree; simp [Env.out] at hf
+    · simp only [Res.bind_ok, require_ok, Res.pure_ok] at hfree
+      obtain ⟨_, _, ⟨e1, h1, o1⟩, hrel, rfl⟩ := hfree
+      simp [Env.out] at hf
+  | takeLastError dst =>
+    simp only [cUnitOp, Res.pure_ok] at h
+    subst h
+    unfold takeLastError at hf
+    split at hf <;> simp [Env.out, Env.setVar, alloc] at hf
 
 /-! ## Non-vacuity: a complete, permitted history on the concrete replay machine -/
 
